@@ -245,7 +245,55 @@ def rule_one_comparator(ctx: Ctx, rep: Report) -> None:
     rep.floor(rule, 5)
 
 
+def rule_rfc6979_steps(ctx: Ctx, rep: Report) -> None:
+    """C02.rfc6979_steps: RFC 6979 section 3.2 as a sequence of HMAC calls over two
+    state variables, read off the code by their initialisers (V = 01..01, K =
+    00..00): every HMAC is keyed by K; V is always V = HMAC_K(V); K is updated
+    three times, as HMAC_K(V || 00 || data), HMAC_K(V || 01 || data) and, on a
+    rejected candidate, HMAC_K(V || 00) -- with V, the last block, and never the
+    candidate T. The retry step runs only when a candidate falls outside
+    1..n-1 (one time in 2^128 on secp256k1, every other time on secp160r1 with
+    sha1), which is why no test sees it."""
+    rule = "C02.rfc6979_steps"
+    fi = ctx.func("btclib.ecc.rfc6979_nonce._rfc6979_nonce_")
+    init: dict[int, str] = {}
+    for a in own_nodes(fi.node):
+        if isinstance(a, ast.Assign) and isinstance(a.targets[0], ast.Name) and isinstance(a.value, ast.BinOp) and isinstance(a.value.op, ast.Mult) \
+                and isinstance(a.value.left, ast.Constant) and a.value.left.value in (b"\x00", b"\x01"):
+            init[a.value.left.value[0]] = a.targets[0].id
+    if set(init) != {0, 1}:
+        rep.unknown(rule, "state", fi.where(), f"the initialisers of K and V were not found: {init}")
+        return
+    K, V = init[0], init[1]
+    calls = sorted([a for a in own_nodes(fi.node) if isinstance(a, ast.Assign) and isinstance(a.value, ast.Call) and isinstance(a.value.func, ast.Attribute) and a.value.func.attr == "digest"
+                    and isinstance(a.value.func.value, ast.Call) and norm(a.value.func.value.func) == "hmac.new"], key=lambda a: a.lineno)
+
+    def atoms(e: ast.AST) -> list[ast.AST]:
+        return atoms(e.left) + atoms(e.right) if isinstance(e, ast.BinOp) and isinstance(e.op, ast.Add) else [e]
+
+    kseq = []
+    for a in calls:
+        h = a.value.func.value
+        tgt = a.targets[0].id if isinstance(a.targets[0], ast.Name) else "?"
+        key, msg = h.args[0], atoms(h.args[1])
+        okk = isinstance(key, ast.Name) and key.id == K
+        rep.ob(rule, f"L{a.lineno - fi.node.lineno}:keyed_by_K", okk, fi.where(a), f"HMAC keyed by `{norm(key)}`" + ("" if okk else f", not by K (`{K}`)"))
+        okv = isinstance(msg[0], ast.Name) and msg[0].id == V
+        rep.ob(rule, f"L{a.lineno - fi.node.lineno}:over_V", okv, fi.where(a), f"the HMAC message begins with `{norm(msg[0])}`" + ("" if okv else f", not with V (`{V}`), the last block generated"))
+        if tgt == V:
+            rep.ob(rule, f"L{a.lineno - fi.node.lineno}:V=HMAC_K(V)", len(msg) == 1, fi.where(a), f"V = HMAC_K({norm(h.args[1])})")
+        elif tgt == K:
+            sep = msg[1].value if len(msg) > 1 and isinstance(msg[1], ast.Constant) else None
+            kseq.append((sep, len(msg)))
+        else:
+            rep.ob(rule, f"L{a.lineno - fi.node.lineno}:target", False, fi.where(a), f"an HMAC assigned to `{tgt}`, which is neither K nor V")
+    okq = kseq == [(b"\x00", 3), (b"\x01", 3), (b"\x00", 2)]
+    rep.ob(rule, "K_updates", okq, fi.where(), "K = HMAC_K(V||00||data), HMAC_K(V||01||data), and HMAC_K(V||00) on retry" if okq else f"K updates (separator, parts) = {kseq}; RFC 6979: [(00, 3), (01, 3), (00, 2)]")
+    rep.floor(rule, 16)
+
+
 RULES = [
+    ("C02.rfc6979_steps", rule_rfc6979_steps),
     ("C02.one_comparator", rule_one_comparator),
     ("C02.raw_argument", rule_raw_argument_),
     ("C02.params_forwarded", rule_params_forwarded_),
